@@ -1,38 +1,60 @@
 #!/venv/bin/python
-"""Copies the independently written behaviour-preserving refactorings (/tmp/ben/Cxx/N) into /verif/benign/Cxx-N/ and records the
-verdicts of a tools/bentest.py run (log given as argument) in benign/INDEX.json."""
+"""Copies independently written behaviour-preserving refactorings (<root>/Cxx/N) into /verif/benign/Cxx-(N+offset)/ and records
+the verdicts of a tools/bentest.py run (log given as argument) in benign/INDEX.json (entries of other batches are kept).
+Usage: assemble_benign.py <bentest log> [--root /tmp/ben] [--offset 0] [--batch 1] [--untuned]
+--untuned additionally records the verdict as `verdict_on_arrival` (the checks as they were before looking at the batch)."""
+import argparse
 import json
 import os
 import re
 import shutil
-import sys
 
 HERE = os.path.dirname(os.path.dirname(os.path.abspath(__file__)))
-log = open(sys.argv[1]).read().splitlines()
+ap = argparse.ArgumentParser()
+ap.add_argument('log')
+ap.add_argument('--root', default='/tmp/ben')
+ap.add_argument('--offset', type=int, default=0)
+ap.add_argument('--batch', type=int, default=1)
+ap.add_argument('--untuned', action='store_true')
+a = ap.parse_args()
+log = open(a.log).read().splitlines()
 status = {}
 cur = None
 for line in log:
-    m = re.match(r'^(/tmp/ben/(C\d\d)/(\d))\s+(silent|ALARM|ERROR)\s*(.*)$', line)
+    m = re.match(r'^(\S*/(C\d\d)[/-](\d+))\s+(silent|ALARM|ERROR)\s*(.*)$', line)
     if m:
-        cur = '%s-%s' % (m.group(2), m.group(3))
-        status[cur] = {'verdict': m.group(4).lower(), 'properties': m.group(5).split(), 'rules': []}
+        n = int(m.group(3))
+        if m.group(1).startswith(a.root):
+            n += a.offset
+        cur = '%s-%d' % (m.group(2), n)
+        status[cur] = {'verdict': m.group(4).lower(), 'properties': m.group(5).split(), 'rules': [], 'src': m.group(1)}
     elif cur and re.match(r'^\s+C\d\d (rule|\[)', line):
         r = re.search(r'(rule \S+|ANALYSIS-ERROR[^\']*)', line)
         if r and r.group(1) not in status[cur]['rules']:
             status[cur]['rules'].append(r.group(1)[:120])
 out = os.path.join(HERE, 'benign')
 os.makedirs(out, exist_ok=True)
-index = {}
+ipath = os.path.join(out, 'INDEX.json')
+index = json.load(open(ipath)) if os.path.exists(ipath) else {}
 for name, st in sorted(status.items()):
     pid, n = name.split('-')
-    src = '/tmp/ben/%s/%s' % (pid, n)
+    src = st['src']
     dst = os.path.join(out, name)
-    shutil.rmtree(dst, ignore_errors=True)
-    os.makedirs(dst)
-    for fn in ('patch.diff', 'meta.json'):
-        shutil.copy(os.path.join(src, fn), os.path.join(dst, fn))
-    meta = json.load(open(os.path.join(src, 'meta.json')))
-    index[name] = {'property': pid, 'summary': (meta.get('summary') or '')[:300], 'verdict': st['verdict'],
-                   'alarming_properties': st['properties'], 'alarming_rules': st['rules']}
-json.dump(index, open(os.path.join(out, 'INDEX.json'), 'w'), indent=1, sort_keys=True)
-print(sum(1 for v in index.values() if v['verdict'] == 'silent'), 'silent of', len(index))
+    if os.path.abspath(src) != os.path.abspath(dst):
+        shutil.rmtree(dst, ignore_errors=True)
+        os.makedirs(dst)
+        for fn in ('patch.diff', 'meta.json'):
+            shutil.copy(os.path.join(src, fn), os.path.join(dst, fn))
+    meta = json.load(open(os.path.join(dst, 'meta.json')))
+    old = index.get(name, {})
+    ent = {'property': pid, 'batch': old.get('batch', a.batch), 'summary': (meta.get('summary') or '')[:300], 'verdict': st['verdict'],
+           'alarming_properties': st['properties'], 'alarming_rules': st['rules']}
+    if a.untuned:
+        ent['verdict_on_arrival'] = st['verdict']
+    elif 'verdict_on_arrival' in old:
+        ent['verdict_on_arrival'] = old['verdict_on_arrival']
+    index[name] = ent
+json.dump(index, open(ipath, 'w'), indent=1, sort_keys=True)
+for b in sorted(set(v.get('batch', 1) for v in index.values())):
+    ents = [v for v in index.values() if v.get('batch', 1) == b]
+    print('batch', b, ':', sum(1 for v in ents if v['verdict'] == 'silent'), 'silent of', len(ents))
